@@ -237,11 +237,19 @@ func runV1Direct(rc runCase) map[string]any {
 	oks, errs := engine.ParseScript(srcs, call, check)
 	loadErrs := map[string]any{}
 	for name, e := range errs {
+		var le map[string]any
 		if pe, ok := e.(*errchain.PlError); ok {
-			loadErrs[hx(name)] = dumpErr(pe)
+			le = dumpErr(pe)
 		} else {
-			loadErrs[hx(name)] = map[string]any{"chain": []any{}, "msg": e.Error()}
+			le = map[string]any{"chain": []any{}, "msg": e.Error()}
 		}
+		// which stage rejected it: the parser alone on the same text (same pooled parser objects)
+		if _, perr := parser.ParsePipeline(name, srcs[name]); perr != nil {
+			le["stage"] = "parse"
+		} else {
+			le["stage"] = "check-or-link"
+		}
+		loadErrs[hx(name)] = le
 	}
 	res["loaderrs"] = loadErrs
 	d := newDumper()
